@@ -372,7 +372,12 @@ def tracking_histories(draw, tier="quick"):
         for _ in range(draw(st.integers(0, 2))):
             ests.append({"p": [draw(GEN.fl(-30, 30)), draw(GEN.fl(-30, 30)), 0.0], "yaw": 0.0, "qs": 1, "size": [2.0, 4.0, 1.5], "label": draw(st.sampled_from(targets)), "score": draw(GEN.fl(0.05, 0.95)), "uuid": f"t{next_id}"})
             next_id += 1
-        frames.append({"ego": draw(GEN.ego_poses()), "gt": [dict(g) for g in gts], "est": ests, "crit": f0["crit"], "pf": f0["pf"]})
+        crit = f0["crit"]
+        if t > 0 and draw(st.booleans()):
+            crit = draw(MG.range_cfg(len(targets), narrow=True, allow_uuids=True, n_gt=len(gts)))
+            if crit.get("uuids"):
+                crit["uuids"] = [f"g0_{u[1:]}" for u in crit["uuids"]]
+        frames.append({"ego": draw(GEN.ego_poses()), "gt": [dict(g) for g in gts], "est": ests, "crit": crit, "pf": f0["pf"]})
     d["frames"] = frames
     return d
 
@@ -391,7 +396,8 @@ def _ref_bucket(results, L, targets, policy, mode, thr):
         ok = False
         if g is not None:
             s = float(r.get_matching(D.mode(mode)).value)
-            ok = ML.compatible(policy, el, gl) and (s < thr if dist else s > thr)
+            # an estimate sitting on a false_positive-labelled GT is never a TP (it is what FP validation flags)
+            ok = gl != "false_positive" and ML.compatible(policy, el, gl) and (s < thr if dist else s > thr)
         ev = (gl == L) if g is not None else (el == L)
         out.append({"e": r.estimated_object.uuid, "el": el, "g": None if g is None else g.uuid, "s": s, "ok": ok, "ev": ev})
     return out
